@@ -93,7 +93,6 @@ func (b *backend) HeadGet(w http.ResponseWriter, r *http.Request) error {
 	}
 	defer f.Close()
 
-	w.Header().Set("Content-Length", strconv.FormatInt(fi.Size, 10))
 	if fi.MIMEType != "" {
 		w.Header().Set("Content-Type", fi.MIMEType)
 	}
@@ -106,8 +105,11 @@ func (b *backend) HeadGet(w http.ResponseWriter, r *http.Request) error {
 
 	if rs, ok := f.(io.ReadSeeker); ok {
 		// If it's an io.Seeker, use http.ServeContent which supports ranges
+		// and conditional requests; it announces the length of what it
+		// writes itself (nothing for a 304 or 412 answer)
 		http.ServeContent(w, r, r.URL.Path, fi.ModTime, rs)
 	} else {
+		w.Header().Set("Content-Length", strconv.FormatInt(fi.Size, 10))
 		if r.Method != http.MethodHead {
 			io.Copy(w, f)
 		}
